@@ -305,6 +305,7 @@ func (st *State) cover(l string) {
 		return
 	}
 	st.res.mu.Lock()
+	st.res.CoverHits[l]++
 	_, have := st.res.CoverWit[l]
 	if !have {
 		st.res.CoverWit[l] = Candidate{} // reserve
